@@ -68,6 +68,21 @@ let call_case (toks : string list) : string =
                         else AVal (ty_of a.[1])) args in
   match call_check ps args with COkCall -> "ok" | CErrCall -> "err" | CCrashNil -> "crash:callcheck-nil-slot"
 
+(* destructuring cases: "D <A|B> <t1> .. ; <m>"  (A = AssignInstr array/array, B = BindlistInstr);
+   targets "S" symbol / "X" anything else; m = number of values *)
+let destructure_case (toks : string list) : string =
+  match toks with
+  | kind :: rest ->
+    let rec split acc = function
+      | ";" :: r -> (List.rev acc, r) | x :: r -> split (x :: acc) r | [] -> (List.rev acc, []) in
+    let (ts, r) = split [] rest in
+    let m = (match r with x :: _ -> int_of_string x | [] -> 0) in
+    let rec upto i = if i >= m then [] else nat_of_int i :: upto (i + 1) in
+    let show = function DOk _ -> "ok" | DErr -> "err" | DCrash -> "crash:destructure-index" in
+    if kind = "B" then show (bindlist (List.mapi (fun i _ -> nat_of_int i) ts) (upto 0))
+    else show (assign_arrays (List.mapi (fun i t -> if t = "S" then TSym (nat_of_int i) else TNotSym) ts) (upto 0))
+  | [] -> failwith "bad D case"
+
 let () =
   iter_lines (fun line ->
     match split_tab line with
@@ -75,6 +90,8 @@ let () =
       let toks = Array.of_list (split_sp body) in
       if Array.length toks > 0 && toks.(0) = "F" then
         Printf.printf "%s\t%s\t-\n" id (call_case (List.tl (Array.to_list toks)))
+      else if Array.length toks > 0 && toks.(0) = "D" then
+        Printf.printf "%s\t%s\t-\n" id (destructure_case (List.tl (Array.to_list toks)))
       else
       let xs = parse toks in
       let fuel = nat_of_int (Array.length toks + 5) in
